@@ -12,16 +12,7 @@ tvars == <<vars, tid, l>>
 LoopLab(p) == CASE p = "start" -> "start" [] p = "accept" -> "accept" [] p = "done" -> "EXIT" [] OTHER -> "acq"
 HLab(p) == CASE p = "fin" -> "acq" [] p = "done" -> "EXIT" [] OTHER -> p
 CLab(p) == CASE p = "wait" -> "io" [] p = "done" -> "EXIT" [] OTHER -> p
-TraceInit == /\ tid \in 1..Len(Traces) /\ l = 1
-             /\ script = Traces[tid].s /\ mx = Traces[tid].mx
-             /\ loop = "start" /\ acc = 0 /\ backlog = <<>> /\ closed = FALSE
-             /\ cl = [c \in DOMAIN script |-> "start"] /\ ip = [c \in DOMAIN script |-> 0]
-             /\ req = [c \in DOMAIN script |-> FALSE] /\ rsp = [c \in DOMAIN script |-> FALSE]
-             /\ rspv = [c \in DOMAIN script |-> <<>>] /\ eof = [c \in DOMAIN script |-> FALSE]
-             /\ h = [c \in DOMAIN script |-> "none"] /\ ml = [c \in DOMAIN script |-> 0]
-             /\ permits = mx /\ serving = {}
-             /\ sk = [s \in {0} \cup DOMAIN script |-> 0] /\ sa = [s \in {0} \cup DOMAIN script |-> 0]
-             /\ obs = [c \in DOMAIN script |-> <<>>]
+TraceInit == tid \in 1..Len(Traces) /\ l = 1 /\ InitWith(Traces[tid].s, Traces[tid].mx)
 Evs == Traces[tid].ev
 Ev == Evs[l]
 TraceNext == /\ l <= Len(Evs) /\ l' = l + 1 /\ UNCHANGED tid
